@@ -176,7 +176,11 @@ def _case(t):
                (['--dump-steps', 'ds'], None), (['--tracking', 'space:track.html'], ['track.html'])]
         for i, (o, allowed) in enumerate(obs):
             d = fresh('obs%d' % i)
-            r = run.run(b, ['-c', cfg, '-l', lang] + o + ['-f', name], cwd=d)
+            r = run.run(b, ['-c', cfg, '-l', lang] + o + ['-f', name], cwd=d, cpu=60 if '-L' in o else None)
+            if r.cpu_timeout or r.wall_timeout:
+                # full logging of a large file is slow; a CPU-limit hit says nothing about the bytes (inconclusive, counted)
+                observed.append('observer-timeout')
+                continue
             if allowed is not None:
                 created(' '.join(o), d, allowed)
             if o[0] == '--tracking':
